@@ -511,10 +511,12 @@ def set_state(lib, m, I, d, seed, eps=0.0):
       d.act[int(m.actuator_actadr[a])] = v
 
 
-QUAT_SENSORS = None
+def FRAME_SENSORS(E):
+  return (E.mjSENS_FRAMEPOS, E.mjSENS_FRAMEQUAT, E.mjSENS_FRAMEXAXIS, E.mjSENS_FRAMEYAXIS, E.mjSENS_FRAMEZAXIS,
+          E.mjSENS_FRAMELINVEL, E.mjSENS_FRAMEANGVEL, E.mjSENS_FRAMELINACC, E.mjSENS_FRAMEANGACC)
 
 
-def observe(lib, m, I, d, common):
+def observe(lib, m, I, d, common, fuse=False):
   E = lib.enums
   out = {}
   bi = [I.ids['body'][x] for x in common['body']]
@@ -532,6 +534,8 @@ def observe(lib, m, I, d, common):
   sv, sq = [], []
   for x in common['sensor']:
     s = I.ids['sensor'][x]
+    if fuse and int(m.sensor_objtype[s]) == E.mjOBJ_BODY and int(m.sensor_type[s]) in FRAME_SENSORS(E):
+      continue      # objtype="body" is the INERTIAL frame, which legitimately changes when static children are fused in
     v = d.sensordata[int(m.sensor_adr[s]):int(m.sensor_adr[s] + m.sensor_dim[s])]
     (sq if int(m.sensor_type[s]) in (E.mjSENS_FRAMEQUAT, E.mjSENS_BALLQUAT) else sv).append(v)
   out['sensordata'] = np.concatenate(sv) if sv else np.zeros(0)
@@ -559,30 +563,30 @@ def obs_diff(oa, ob):
   return worst, wk
 
 
-def rollout(lib, m, I, common, seed, eps=0.0):
+def rollout(lib, m, I, common, seed, eps=0.0, fuse=False):
   d = lib.make_data(m)
   set_state(lib, m, I, d, seed, eps)
   obs = []
   for k in range(1, NSTEP + 1):
     lib.mj_step(m, d)
     if k in CMP_STEPS:
-      obs.append(observe(lib, m, I, d, common))
+      obs.append(observe(lib, m, I, d, common, fuse))
   bad = not np.all(np.isfinite(d.qpos)) or (d.qvel.size and float(np.max(np.abs(d.qvel))) > 1e4)
   return obs, bad, d
 
 
 def compare_trajectories(ck, lib, mA, mB, IA, IB, common, seed, what, fuse=False):
-  oA, badA, dA = rollout(lib, mA, IA, common, seed)
+  oA, badA, dA = rollout(lib, mA, IA, common, seed, fuse=fuse)
   lib.warnings()
   if badA:
     ck.label('traj:unstable-skipped')
     return False
-  oP, badP, _ = rollout(lib, mA, IA, common, seed, eps=1e-12)
+  oP, badP, _ = rollout(lib, mA, IA, common, seed, eps=1e-12, fuse=fuse)
   resp = max(obs_diff(a, p)[0] for a, p in zip(oA, oP))
   if badP or resp > ILLCOND:
     ck.label('traj:illconditioned-skipped')
     return False
-  oB, badB, dB = rollout(lib, mB, IB, common, seed)
+  oB, badB, dB = rollout(lib, mB, IB, common, seed, fuse=fuse)
   tol = (TRAJ_ATOL_FUSE + TRAJ_K_FUSE * resp) if fuse else (TRAJ_ATOL + TRAJ_K * resp)
   for k, (a, b) in zip(CMP_STEPS, zip(oA, oB)):
     e, f = obs_diff(a, b)
@@ -738,6 +742,144 @@ def check_fuse_probe(ck, lib, case):
   ck.case(nontrivial=nf > 0, key=(case['plain'],), labels=labels)
 
 
+# ------------------------------------------------------------------------------------------------ mj_setConst
+
+# edit kind -> compiled input fields that the equivalent XML edit changes (copied bit-exactly from the recompiled model
+# into the compiled one before mj_setConst; everything else has to be produced by mj_setConst itself)
+SETCONST_EDITS = {
+    'body_mass_inertia': ('body_mass', 'body_inertia'),
+    'body_ipos_iquat': ('body_ipos', 'body_iquat'),
+    # for a body with a free joint the XML pos/quat also IS the joint's reference configuration (qpos0/qpos_spring)
+    'body_pos_quat': ('body_pos', 'body_quat', 'qpos0', 'qpos_spring'),
+    'dof_armature': ('dof_armature',),
+    'qpos0': ('qpos0',),
+    'qpos_spring': ('qpos_spring',),
+    'body_gravcomp': ('body_gravcomp',),
+    'actuator_gear': ('actuator_gear',),
+}
+
+
+@st.composite
+def setconst_case(draw):
+  d = draw
+  model = d(gr.abstract_model(max_bodies=4, replicate=False, attach=False))
+  bodies = gr.collect(model, 'body')
+  joints = gr.collect(model, 'joint')
+  for b in bodies:        # body/simple="false" is documented as required before inertial frames are edited at runtime
+    b['simple_false'] = True
+  kinds = ['body_gravcomp'] + (['dof_armature'] if joints else [])
+  moving = [b for b in bodies if any(it['k'] == 'joint' for it in b['items'])]
+  if moving:
+    kinds += ['body_pos_quat'] * 2
+  hs = [j for j in joints if j['type'] in ('hinge', 'slide')]
+  if hs:
+    kinds += ['qpos0', 'qpos_spring'] * 2
+  if model['actuators']:
+    kinds += ['actuator_gear'] * 2
+  kinds += ['body_mass_inertia', 'body_ipos_iquat'] * 2
+  kind = d(st.sampled_from(kinds))
+  edited = gr._copy(model)
+  eb = gr.collect(edited, 'body')
+  ej = gr.collect(edited, 'joint')
+  what = ''
+  if kind in ('body_mass_inertia', 'body_ipos_iquat'):
+    b = eb[d(st.integers(0, len(eb) - 1))]
+    for m_ in (model, edited):      # the body needs an explicit inertial in both versions
+      bb = [x for x in gr.collect(m_, 'body') if x['name'] == b['name']][0]
+      if bb['inertial'] is None:
+        bb['inertial'] = dict(pos=[0.01, -0.02, 0.03], quat=[1.0, 0.0, 0.0, 0.0], mass=1.5, diag=[0.02, 0.03, 0.04])
+    I = b['inertial']
+    if kind == 'body_mass_inertia':
+      f = d(gr.num(0.3, 3.0))
+      I['mass'] = I['mass'] * f
+      if d(st.booleans()):
+        I['diag'] = [x * f for x in I['diag']]
+      else:
+        I['diag'] = gr.draw_inertial(d)['diag']
+    else:
+      I['pos'] = gr._vec(d, -0.1, 0.1)
+      if d(st.booleans()):
+        I['quat'] = gr.draw_quat(d)
+    what = b['name']
+  elif kind == 'body_pos_quat':
+    names = [b['name'] for b in moving]
+    pick = names[d(st.integers(0, len(names) - 1))]
+    b = [x for x in eb if x['name'] == pick][0]
+    b['pos'] = gr._vec(d, -0.5, 0.5)
+    if d(st.booleans()):
+      b['quat'] = gr.draw_quat(d)
+    what = b['name']
+  elif kind == 'dof_armature':
+    j = ej[d(st.integers(0, len(ej) - 1))]
+    j['armature'] = d(gr.num(0.0, 0.5))
+    what = j['name']
+  elif kind in ('qpos0', 'qpos_spring'):
+    names = [j['name'] for j in hs]
+    pick = names[d(st.integers(0, len(names) - 1))]
+    j = [x for x in ej if x['name'] == pick][0]
+    j['ref' if kind == 'qpos0' else 'springref'] = d(gr.num(-0.6, 0.6))
+    what = j['name']
+  elif kind == 'body_gravcomp':
+    b = eb[d(st.integers(0, len(eb) - 1))]
+    b['gravcomp'] = d(st.sampled_from([0.0, 0.5, 1.0]))
+    what = b['name']
+  elif kind == 'actuator_gear':
+    a = edited['actuators'][d(st.integers(0, len(edited['actuators']) - 1))]
+    a['gear'] = [d(gr.num(-3, 3, 1)) or 0.5] + a['gear'][1:]
+    what = a['name']
+  auto_spring = any(t['springlength'] is None for t in model['tendons'])
+  return dict(kind=kind, target=what, before=gr.Renderer(None).render(model), after=gr.Renderer(None).render(edited),
+              seed=d(st.integers(0, 2 ** 31 - 1)), auto_springlength=auto_spring)
+
+
+# Fields that are compile-only by documentation or by construction (never expected from mj_setConst):
+#  - actuator_lengthrange: "set all remaining constant fields of mjModel, except for lengthrange" (engine_setconst.c) /
+#    mj_setLengthRange is a separate API function;
+#  - names/paths/signature/buffer bookkeeping.
+SETCONST_SKIP = {'actuator_lengthrange', 'signature'}
+
+
+def check_setconst(ck, lib, case):
+  from vf import mj
+  ck.journal(case)
+  try:
+    m1 = compile_case(lib, case['before'], None)
+    m2 = compile_case(lib, case['after'], None)
+  except mj.MjError as e:
+    ck.discard('setconst-compile')
+    return
+  fields = SETCONST_EDITS[case['kind']]
+  changed = False
+  for f in fields:
+    a, b = getattr(m1, f), getattr(m2, f)
+    if not np.array_equal(a, b):
+      changed = True
+    a[...] = b
+  d = lib.make_data(m1)
+  lib.mj_setConst(m1, d)            # MjError here = violation (documented-safe edit rejected)
+  skip = set(SETCONST_SKIP)
+  if case['kind'] == 'qpos_spring' and case['auto_springlength']:
+    skip.add('tendon_lengthspring')
+  diffs = modelcmp.compare(lib, m1, m2, mode='exact', skip=skip)
+  labels = ['setconst:' + case['kind'], 'setconst:changed' if changed else 'setconst:noop']
+  if diffs:
+    # not bit-identical: still equal within the derived tolerance? (then it is only a different rounding path)
+    loose = modelcmp.compare(lib, m1, m2, mode='rel', rtol=TOL_DERIVED, atol=TOL_DERIVED, skip=skip)
+    if loose:
+      fail('mj_setConst after editing %s of %r differs from recompiling the edited XML: %s' % (
+          '/'.join(fields), case['target'], modelcmp.fmt(loose)), 'setconst:' + loose[0].field)
+    labels.append('setconst:equal-within-tol-not-bitexact')
+    ck.extra.setdefault('setconst_not_bitexact_fields', [])
+    for df in diffs[:3]:
+      if df.field not in ck.extra['setconst_not_bitexact_fields']:
+        ck.extra['setconst_not_bitexact_fields'].append(df.field)
+  else:
+    labels.append('setconst:bit-exact')
+  ck.case(nontrivial=changed, key=(case['before'], case['after']), labels=labels,
+          sample=dict(setconst=case['kind'], target=case['target'], after=case['after'][:600]) if changed and
+          not any('setconst' in str(x) for x in ck.samples) else None)
+
+
 # ------------------------------------------------------------------------------------------------ the checks
 
 def check_rewrite(ck, lib, case, probe=False):
@@ -825,6 +967,7 @@ def main(ck):
                                            attach=False), ck.budget(12, 100), name='replicate-probe', shrink=False)
   ck.run_hypothesis(lambda c: check_fuse_probe(ck, lib, c), fuse_probe_case(), ck.budget(12, 100), name='fuse-probe',
                     shrink=False)
+  ck.run_hypothesis(lambda c: check_setconst(ck, lib, c), setconst_case(), ck.budget(80, 1500), name='setconst')
   ck.extra['tolerances'] = dict(TOL_DIRECT=TOL_DIRECT, TOL_DERIVED=TOL_DERIVED, TOL_F32=TOL_F32, TRAJ_ATOL=TRAJ_ATOL,
                                 TRAJ_K=TRAJ_K, ILLCOND=ILLCOND)
   ck.extra['max_observed_error'] = {k: dict(err=v[0], field=v[1]) for k, v in STATS.maxerr.items()}
